@@ -471,7 +471,7 @@ func init() {
 		var cases []*csCase
 		if c.Replay != "" {
 			var x csCase
-			if err := readJSON(c.Replay, &x); err != nil {
+			if err := readCase(c.Replay, &x); err != nil {
 				return err
 			}
 			cases = append(cases, &x)
@@ -776,7 +776,7 @@ func init() {
 		var cases []*csCase
 		if c.Replay != "" {
 			var x csCase
-			if err := readJSON(c.Replay, &x); err != nil {
+			if err := readCase(c.Replay, &x); err != nil {
 				return err
 			}
 			cases = append(cases, &x)
